@@ -25,6 +25,12 @@ struct Msg {
     /// length of one extra atom (0 = none); > 255 exercises LongAtoms
     #[serde(default)]
     long_len: u32,
+    /// how many such extra atoms (0 and 1 both mean one); they differ in length by one byte each
+    #[serde(default)]
+    long_count: u32,
+    /// recv: this many of the previous message's long atoms occur in this one as well (re-used entries)
+    #[serde(default)]
+    carry: u32,
     #[serde(default)]
     seed: u64,
     /// recv: send this one in pass-through form / as a tick instead
@@ -67,7 +73,23 @@ fn atom_name(i: u64) -> String {
     }
 }
 
-fn payload_for(m: &Msg, universe: u32) -> Val {
+fn long_atoms(m: &Msg) -> Vec<Val> {
+    let mut out = Vec::new();
+    if m.long_len > 0 {
+        // byte length (what the wire counts) versus character count: multi-byte text too
+        let (c, width) = match m.seed % 3 {
+            0 => ((b'a' + (m.seed % 26) as u8) as char, 1),
+            1 => ('é', 2),
+            _ => ('日', 3),
+        };
+        for j in 0..m.long_count.max(1) as usize {
+            out.push(Val::Atom(c.to_string().repeat(((m.long_len as usize).saturating_sub(j * width) / width).max(1))));
+        }
+    }
+    out
+}
+
+fn payload_for(m: &Msg, universe: u32, carried: &[Val]) -> Val {
     let mut r = Rng::new(m.seed);
     let mut atoms: Vec<Val> = Vec::new();
     let mut seen = std::collections::BTreeSet::new();
@@ -78,14 +100,11 @@ fn payload_for(m: &Msg, universe: u32) -> Val {
             atoms.push(Val::Atom(atom_name(i)));
         }
     }
-    if m.long_len > 0 {
-        // byte length (what the wire counts) versus character count: multi-byte text too
-        let (c, width) = match m.seed % 3 {
-            0 => ((b'a' + (m.seed % 26) as u8) as char, 1),
-            1 => ('é', 2),
-            _ => ('日', 3),
-        };
-        atoms.push(Val::Atom(c.to_string().repeat((m.long_len as usize / width).max(1))));
+    atoms.extend(long_atoms(m));
+    for c in carried {
+        if !atoms.contains(c) {
+            atoms.push(c.clone());
+        }
     }
     if r.chance(1, 8) {
         atoms.push(Val::atom(""));
@@ -122,6 +141,17 @@ impl Scenario for C14 {
         };
         // a few long histories: hundreds of messages, each introducing fresh atoms, so that far more
         // entries are created and overwritten than the cache has slots while a few atoms stay hot
+        // and, rarely, a heavy history: tens of megabytes of atom text pass through the cache (each message
+        // brings a few dozen atoms of up to 65535 bytes), far more than it holds at any time
+        let heavy = !send && r.chance(1, 1500);
+        if heavy {
+            let n = r.range(52, 60) as usize;
+            let msgs: Vec<Msg> = (0..n)
+                .map(|_| Msg { n_atoms: r.range(2, 6) as u32, long_len: r.range(55_000, 65_535) as u32, long_count: r.range(28, 34) as u32, carry: r.range(0, 12) as u32, seed: r.next_u64(), form: "hdr".to_string(), gap_ms: 0 })
+                .collect();
+            let p = Plan { kind: "recv".to_string(), msgs, universe: 60, conn_timeout_ms: 0, client: EndCfg::default(), server: EndCfg::default(), salt: r.next_u64() };
+            return serde_json::to_value(p).unwrap();
+        }
         let long = !send && r.chance(1, 25);
         let n = if long { r.range(300, 600) as usize } else { r.range(1, if send { 8 } else { 30 }) as usize };
         let msgs: Vec<Msg> = (0..n)
@@ -140,6 +170,8 @@ impl Scenario for C14 {
                     1 => *r.pick(&[254u32, 255]),
                     _ => 0,
                 },
+                long_count: 0,
+                carry: 0,
                 seed: r.next_u64(),
                 form: if send { String::new() } else if long { "hdr".to_string() } else { (*r.pick(&["hdr", "hdr", "hdr", "hdr", "hdr", "hdr", "pt", "tick", "hdr_bad"])).to_string() },
                 gap_ms: 0,
@@ -170,7 +202,7 @@ impl Scenario for C14 {
             Ok(p) => p,
             Err(_) => return RunOutput::default(),
         };
-        if p.msgs.is_empty() || p.msgs.len() > 700 || p.msgs.iter().any(|m| m.n_atoms > 400 || m.long_len > 5000) {
+        if p.msgs.is_empty() || p.msgs.len() > 700 || p.msgs.iter().any(|m| m.n_atoms > 400 || m.long_len > 65_535 || (m.long_len > 5000 && (p.kind == "send" || p.msgs.len() > 60)) || m.long_count > 40) {
             return RunOutput::default();
         }
         let world = World::new(tape, keep, p.salt);
@@ -187,12 +219,12 @@ impl Scenario for C14 {
 
     fn info(&self) -> Info {
         Info {
-            rule: "one run = (recv) 1..30 messages on one connection from a sender model that keeps an OTP-style atom cache (8 segments x 256 slots, slot chosen independently of the header position, entries created, re-used across messages and overwritten; short and long atoms; 0..255 header references of either parity; some atoms left inline; pass-through frames and ticks interleaved), received by the real Connection whose cache persists across receive_message calls; or (send) 1..8 send_message calls in header mode with 0..300 distinct atoms of lengths 0..1000, read by the independent header reader on the peer, echoed back and decoded by the same Connection. Non-trivial = history of at least two messages or a send run; distinct = distinct (transfer sequence, event log).",
+            rule: "one run = (recv) 1..30 messages on one connection from a sender model that keeps an OTP-style atom cache (8 segments x 256 slots, slot chosen independently of the header position, entries created, re-used across messages and overwritten; short and long atoms; 0..255 header references of either parity; some atoms left inline; pass-through frames and ticks interleaved; a few histories of 300..600 messages, and rarely one that passes more than 64 MiB of atom text through the cache), received by the real Connection whose cache persists across receive_message calls; or (send) 1..8 send_message calls in header mode with 0..300 distinct atoms of lengths 0..1000, read by the independent header reader on the peer, echoed back and decoded by the same Connection. Non-trivial = history of at least two messages or a send run; distinct = distinct (transfer sequence, event log).",
             components_real: &["erltf::decoder (decode_with_atom_cache, parse_dist_header_with_cache, ATOM_CACHE_REF resolution, AtomCache)", "erltf::encoder (encode_with_dist_header_multi)", "edp_client::Connection (receive_message, send_message, atom_cache lifetime)", "handshake/transport/framing"],
             components_stubbed: &["TCP (SimNet)", "EPMD (stub)", "remote node: sender-side atom cache model + independent header writer/reader"],
             assumptions: &["any slot assignment by the sender conforms (the receiver must follow the header); real OTP picks the slot by atom hash", "the order of atoms in this library's own header is seeded through hook H11"],
             fault_prefixes: &["fault.", "net."],
-            expected_probes: &["probe.c14.old_entry_referenced", "probe.c14.slot_overwritten", "probe.c14.segment_above_zero", "probe.c14.segment_seven", "probe.c14.position_differs_from_slot", "probe.c14.long_atoms_even_count", "probe.c14.long_atoms_odd_count", "probe.c14.own_header_read", "probe.c14.own_header_long_atoms", "probe.c14.echo_decoded", "probe.c14.too_many_atoms_rejected", "probe.c14.header_255_atoms", "probe.c14.failed_frame_with_intact_header", "probe.c14.long_history", "probe.c06.idle_timeout_retried"],
+            expected_probes: &["probe.c14.old_entry_referenced", "probe.c14.slot_overwritten", "probe.c14.segment_above_zero", "probe.c14.segment_seven", "probe.c14.position_differs_from_slot", "probe.c14.long_atoms_even_count", "probe.c14.long_atoms_odd_count", "probe.c14.own_header_read", "probe.c14.own_header_long_atoms", "probe.c14.echo_decoded", "probe.c14.too_many_atoms_rejected", "probe.c14.header_255_atoms", "probe.c14.failed_frame_with_intact_header", "probe.c14.long_history", "probe.c14.over_64_mib_of_atom_text", "probe.c06.idle_timeout_retried"],
         }
     }
 }
@@ -206,9 +238,11 @@ async fn recv_dir(w: &Arc<World>, p: &Plan) {
             NetCfg { client: p.client.clone(), server: p.server.clone(), cap: 0 },
             OTP_FLAGS_BASE | FLAG_DIST_HDR_ATOM_CACHE | FLAG_FRAGMENTS,
             move |w, conn, _seen| {
-                let mut cache = SenderCache { all_segments: true, ..Default::default() };
+                let heavy = p2.msgs.iter().any(|m| m.long_count > 1);
+                let mut cache = SenderCache { all_segments: true, cache_everything: heavy, ..Default::default() };
                 let mut frames = Vec::new();
                 let mut expect = Vec::new();
+                let mut prev_long: Vec<Val> = Vec::new();
                 for (k, m) in p2.msgs.iter().enumerate() {
                     let mut r = Rng::new(m.seed ^ 0x14);
                     if m.form == "tick" {
@@ -216,7 +250,8 @@ async fn recv_dir(w: &Arc<World>, p: &Plan) {
                         continue;
                     }
                     let control = Val::tuple(vec![Val::int(2), Val::atom(""), wire::gen_pid(&mut r, Some(SUT_NAME))]);
-                    let payload = Val::tuple(vec![Val::int(k as i128), payload_for(m, p2.universe)]);
+                    let payload = Val::tuple(vec![Val::int(k as i128), payload_for(m, p2.universe, &prev_long[..(m.carry as usize).min(prev_long.len())])]);
+                    prev_long = long_atoms(m);
                     if m.form == "pt" {
                         frames.push((wire::frame4(&wire::pass_through(&control, Some(&payload))), m.gap_ms));
                         expect.push(Expect::Ok(control, Some(payload), "pass-through"));
@@ -247,6 +282,9 @@ async fn recv_dir(w: &Arc<World>, p: &Plan) {
                     expect.push(Expect::Ok(control, Some(payload), "distribution header"));
                     if p2.msgs.len() >= 300 && k == p2.msgs.len() - 1 {
                         w.stat("probe.c14.long_history");
+                    }
+                    if k == p2.msgs.len() - 1 && p2.msgs.iter().map(|m| u64::from(m.long_len) * u64::from(m.long_count.max(1))).sum::<u64>() > (64 << 20) {
+                        w.stat("probe.c14.over_64_mib_of_atom_text");
                     }
                 }
                 *script2.lock().unwrap() = Some(expect);
@@ -308,7 +346,7 @@ async fn send_dir(w: &Arc<World>, p: &Plan) {
         let mut r = Rng::new(m.seed ^ 0x41);
         let to = wire::gen_pid(&mut r, Some(PEER_NAME));
         let control = Val::tuple(vec![Val::int(2), Val::atom(""), to.clone()]);
-        let payload = Val::tuple(vec![Val::int(k as i128), payload_for(m, p.universe)]);
+        let payload = Val::tuple(vec![Val::int(k as i128), payload_for(m, p.universe, &[])]);
         let mut atoms = Vec::new();
         control.atoms(&mut atoms);
         payload.atoms(&mut atoms);
